@@ -67,9 +67,25 @@ func VerifC06_Message() {
 	c06sized(m)
 }
 
+// a learn spec is its 2-byte header, then the source (an immediate of 2*ceil(n_bits/16) bytes —
+// OVS nicira-ext.h — or a 6-byte field reference), then the 6-byte destination unless it is an
+// output spec; nothing may be cut off.
 func VerifC06_LearnSpec() {
 	s := buildLearnSpec()
-	c06sized(s)
+	hb, _ := s.Header.MarshalBinary()
+	kids := [][]byte{hb}
+	if s.Header.src {
+		kids = append(kids, s.SrcValue[:2*((int(s.Header.nBits)+15)/16)])
+	} else {
+		sb, _ := s.SrcField.MarshalBinary()
+		kids = append(kids, sb)
+	}
+	if !s.Header.output {
+		db, _ := s.DstField.MarshalBinary()
+		kids = append(kids, db)
+	}
+	b := c06sized(s)
+	c06children(b, 0, kids, false)
 }
 
 // children of a match sit whole, in order, right after the 4-byte header; the rest is zero.
@@ -363,4 +379,67 @@ func VerifC06_GenericMultipart() {
 	r := &MultipartRequest{Header: NewOfp13Header(), Type: vr.U16("mptype"), Flags: vr.U16("flags"), Body: g}
 	b := c06sized(r)
 	c06children(b, 16, [][]byte{g.b}, false)
+}
+
+// ---- builder histories in which a child grows after it was added to its container ----
+// (conntrack action receiving nested actions, note action receiving its text): the container's
+// encoding must still hold the child's final encoding, whole.
+
+func c06lateChild() (a Action, grow func()) {
+	if vr.Choice("late", 2) == 0 {
+		ct := NewNXActionConnTrack()
+		return ct, func() { ct.AddAction(buildActionShort(0)) }
+	}
+	n := NewNXActionNote()
+	return n, func() { n.Note = vr.Bytes("note", 7) }
+}
+
+func VerifC06_LateGrowthPacketOut() {
+	p := NewPacketOut()
+	a, grow := c06lateChild()
+	p.AddAction(a)
+	grow()
+	pl := vr.Bytes("payload", 4)
+	p.SetData(pl)
+	ab, _ := a.MarshalBinary()
+	b := c06sized(p)
+	c06children(b, 24, [][]byte{ab, pl}, false)
+}
+
+func VerifC06_LateGrowthInstr() {
+	ia := NewInstrApplyActions()
+	a, grow := c06lateChild()
+	ia.AddAction(a, false)
+	ia.AddAction(NewActionOutput(vr.U32("port")), vr.Bool("prepend"))
+	grow()
+	f := NewFlowMod()
+	f.AddInstruction(ia)
+	ib, _ := ia.MarshalBinary()
+	mb, _ := f.Match.MarshalBinary()
+	b := c06sized(f)
+	c06children(b, 48, [][]byte{mb, ib}, false)
+	ab, _ := a.MarshalBinary()
+	vr.Assert(int(a.Len()) == len(ab), "grown-child-len==bytes")
+}
+
+func VerifC06_LateGrowthBucket() {
+	bk := NewBucket()
+	a, grow := c06lateChild()
+	bk.AddAction(a)
+	grow()
+	g := NewGroupMod()
+	g.AddBucket(*bk)
+	grow2 := vr.Bool("grow-after-addbucket")
+	if grow2 {
+		grow()
+	}
+	// a bucket written as a literal, the way a caller without NewBucket would
+	g.AddBucket(Bucket{Weight: vr.U16("weight"), Actions: []Action{NewActionOutput(vr.U32("port"))}})
+	var kids [][]byte
+	for i := range g.Buckets {
+		bb, _ := g.Buckets[i].MarshalBinary()
+		kids = append(kids, bb)
+	}
+	b := c06sized(g)
+	c06children(b, 16, kids, false)
 }
